@@ -160,7 +160,7 @@ def main(argv=None):
              "expressions block (known finding, exercised by one directed case); non-trivial = at least 3 blocks and a permutation "
              "that changed the text; numpy always, C every 3rd, jax every 6th model",
         trusted_base=["Coq 8.16.1 kernel", "extraction + ocaml/driver.ml", "harness renderer"],
-        assumptions=["that Load.load maps permuted item lists to ode_equiv models is checked by execution (C10_partial), not proved"],
+        assumptions=["the theorem (LoadPerm.permuted_text_same_code) is about the loader mirror and the mirror generators; that the implementation agrees with them is checked on every generated model and permutation"],
     )
 
 
